@@ -6,9 +6,9 @@ PY = "/venv/bin/python"
 
 CLAIMED = {
  "C06": dict(engine="A-dasksim", ref="DESIGN.md section 4",
-    technique="deterministic simulation: seeded dask task-graph scheduler with fault injection (duplicate execution, evict+recompute, read-only and copied chunk delivery, shared compute), differential against eager xgcm",
+    technique="deterministic simulation: seeded dask task-graph scheduler with fault injection (duplicate execution, evict+recompute, read-only and copied chunk delivery, shared compute, line-level interleaving of concurrent task pairs), differential against eager xgcm",
     text="Seeded exploration: for each generated (grid, operation, chunk layout) the lazy result is built under a monitor that forbids any computation and then computed under several simulated schedules (policy x fault set); every result must equal the in-memory result bit for bit and refusals are allowed only in the exempted inner/outer situation. Sampling, not exhaustive: a clean batch is evidence, not proof.",
-    note="Trusted: dask graph construction/optimisation, the canonical-label scheme that makes schedules replayable, exact arithmetic of integer-valued float64 test data. Serial schedules + buffer faults stand in for truly concurrent task execution (xgcm tasks share no state but chunk buffers)."),
+    note="Trusted: dask graph construction/optimisation, the canonical-label scheme that makes schedules replayable, exact arithmetic of integer-valued float64 test data. Concurrency is simulated, never real: serial schedules with buffer-delivery faults, plus pairs of tasks interleaved at line granularity inside xgcm's source by a settrace baton (one seed = one interleaving). Values are compared up to 1e-10 relative (chunked reductions re-associate sums), everything else exactly."),
  "C07": dict(engine="A-dasksim+numba-standin", ref="DESIGN.md section 4 and 7 (C07)",
     technique="deterministic simulation: simulated dask schedules + poisoned kernel output buffers; per-column overlap-weight reference model as oracle",
     text="Seeded exploration of the conservative transform via the kernel and via Grid.transform: chunking/schedule/allocator clauses are decided by simulation (eager vs lazy under simulated schedules, garbage-filled output buffers); per-column conservation, overlap weights, bin merging, sign and bin reversal are checked against an independent reference model on every simulated execution.",
